@@ -342,6 +342,9 @@ def srcinfoStep (st : MState) (line : String) : MState × String :=
     match m.toNat?.bind modeFlags, st.cur with
     | some (ec, xo), some (fi, f) => (st, "ok " ++ showLocs (generate fi ec xo f))
     | _, _ => (st, "bad-op")
+  | ["conc", _] =>
+    -- the model has no notion of concurrency: several callers get what a lone caller gets
+    (st, if st.cur.isSome then "ok" else "bad-op")
   | ["raw", m] =>
     match m.toNat?.bind modeFlags, st.cur with
     | some (ec, xo), some (fi, f) => (st, "ok " ++ showLocs (generate fi ec xo (stripInfo f)))
@@ -526,6 +529,20 @@ def srcinfoSpec (st : SState) (op ans : String) : SState × String :=
         | some why => (st', "fails " ++ why)
         | none => (st', "holds")
     | none => (st, "skip")
+  | ["conc", _] =>
+    -- results computed concurrently from one shared AST must be the lone caller's; a differing result
+    -- is examined with the same predicates
+    if !st.ready then (st, "skip") else
+    if ans == "ok" then (st, "holds") else
+    match words ans with
+    | "differs" :: m :: via :: rest =>
+      match parseLocsAnswer ("ok" :: rest) with
+      | some locs =>
+        match checkWf st ((((m.drop 2).toString).toNat?).getD 0) locs with
+        | some why => (st, s!"fails concurrent-{(via.drop 4).toString} " ++ why)
+        | none => (st, s!"fails concurrent-result-differs {m} {via}")
+      | none => (st, s!"fails concurrent-result-differs {m} {via} {" ".intercalate (rest.take 2)}")
+    | _ => (st, "fails concurrent-result-differs " ++ (ans.take 80).toString)
   | ["raw", m] =>
     -- sourceinfo.GenerateSourceInfo(ast, nil, …): options stay uninterpreted; spans, comments and the
     -- relation between the flag combinations are checked (paths would need the unlinked descriptor)
@@ -700,27 +717,28 @@ def checkPair (fi : FI) (f : File) (ec : Bool) (prev : Option Nat) (t : Nat) (a 
           a.lT != (if a.l.isEmpty then none else some (specText fi a.l)) ||
           a.dT != a.d.map (specText fi) then
     some s!"comment-text tok={t}"
-  -- the abstract form of the lexer's rule + attributeComments reproduces the answer
-  else if (let r := attributeStream ec (prev.map fun p => (tokEnd fi p).1)
-              (between.map fun i => mkCm fi ⟨i, 0⟩) (tokStart fi t).1 (tokKind fi t)
-           r.1.map (·.item) != a.t || r.2.1.map (·.map (·.item)) != a.d || r.2.2.map (·.item) != a.l) then
-    some s!"stream-form-differs tok={t}"
-  else if ec then none
   else
+    -- the abstract form of the lexer's rule + attributeComments (consulted only after protoc's verdict)
+    let streamDiffers :=
+      let r := attributeStream ec (prev.map fun p => (tokEnd fi p).1)
+                (between.map fun i => mkCm fi ⟨i, 0⟩) (tokStart fi t).1 (tokKind fi t)
+      r.1.map (·.item) != a.t || r.2.1.map (·.map (·.item)) != a.d || r.2.2.map (·.item) != a.l
+    let streamVerdict := if streamDiffers then some s!"stream-form-differs tok={t}" else none
+    if ec then streamVerdict else
     -- protoc attributes comments at declaration boundaries only: compare what a location reports
     let cmpTrail := match prev with | some p => (trailAnchors f).contains p | none => false
     let cmpLead := (leadAnchors f).contains t &&
       (match prev with | none => true | some p => endsDecl fi p)
-    if !cmpTrail && !cmpLead then none else
+    if !cmpTrail && !cmpLead then streamVerdict else
     let r := refFor fi prev t
     let same := (!cmpTrail || r.trailing.map (·.id) == a.t) &&
       (!cmpLead || (r.detached.map (·.map (·.id)) == a.d && r.leading.map (·.id) == a.l))
-    if same then none
+    if same then streamVerdict
     else if r.clauses.all (fun c => anchoredClauses.contains c) then
       let sh := fun (t : List Nat) (d : List (List Nat)) (l : List Nat) =>
         s!"t={showItems t},d={";".intercalate (d.map showItems)},l={showItems l}"
       some s!"attribution-differs-from-protoc tok={t} go[{sh a.t a.d a.l}] protoc[{sh (r.trailing.map (·.id)) (r.detached.map (·.map (·.id))) (r.leading.map (·.id))}] cmp={if cmpTrail then "T" else ""}{if cmpLead then "L" else ""} clauses={",".intercalate r.clauses}"
-    else none
+    else streamVerdict
 
 def checkPairs (fi : FI) (f : File) (ec : Bool) (answers : List PairAns) : Option String :=
   (tokenPairs fi).findSome? fun (p, t) =>
